@@ -234,3 +234,7 @@ _other("C20", [("contracts.units_core", c) for c in ("UnitStr", "UnitRepr", "Spl
        "bounded: grammar-based, token-mutation and byte fuzzing (28k strings quick) + print/parse round trips over "
        "all names and random unit arithmetic; proved: prefix split and table lookup raise only UnitParseError, "
        "__str__/__repr__ special cases")
+
+from contracts import registry as _R   # noqa: E402
+for _pid in ("C12", "C13"):
+    PLANS[_pid].proofs += [("contracts.registry", n) for n in _R.ALL]
